@@ -1,7 +1,7 @@
 """C05 — queries return exactly the matching events, newest first, newest-k under limit."""
 from ._store import run_store
 
-THEOREMS = []
+THEOREMS = ['findEvents_sound', 'findEvents_nip01', 'redacted_sound', 'scrape_gate', 'findEvents_total']
 
 
 def run():
